@@ -36,10 +36,21 @@ Not decided (never alarmed; counted as inconclusive or accepted either way):
   * key order of a databox, column order of a CSV file, the unused to_csv_file options `numeric_format`, `frequency`
   * CSV: multi-line descriptions, names starting with "__" or equal to "*", |values| > 1e296 with rounding
     (numpy.round overflows to inf), nan_str that is itself a number, non-ASCII text (locale dependent),
-    series without a start period (absent or empty after the round trip), series with no observation on the
-    exported span (absent or empty), write/read options that do not correspond to each other
-  * Dataslate: non-numeric items or series of another frequency among the names (an error is expected),
-    non-consecutive periods, descriptions (only carried when passed explicitly)
+    series with no observation on the exported span (absent or empty), write/read options that do not
+    correspond to each other
+  * CSV: series WITHOUT a start period (frequency unknown): absent or empty after the round trip; exceptions of
+    from_csv_file on files that contain such a series are counted as inconclusive (observed: a file with only
+    such series has no data rows -> IndexError; start_period_only=True or a custom period_from_string on the
+    empty date cell -> TypeError/ValueError). Every series with a start period in the same file is still compared
+    whenever the file can be read.
+  * Dataslate: an empty selection of names (observed: ValueError from numpy.vstack), non-numeric items or series
+    of another frequency among the names (an error is expected), non-consecutive periods, descriptions (only
+    carried when passed explicitly), unknown keyword arguments
+  * whether the argument box of overlay / underlay / merge may be modified is read as "no" (it is not among the
+    selected names of self): such modifications are reported under the separate keys `<op>:argument-mutated[:mechanism]`
+
+Side diagnostic (never a verdict): shard 0 runs one export under `strace -f -e trace=openat,...` and notes whether the
+named CSV file was the only path opened for writing by to_csv_file (evidence: notes `strace:*`).
 """
 
 from __future__ import annotations
@@ -62,7 +73,7 @@ TIERS = {
     "quick": {"shards": 8, "budget_s": 30},
     "thorough": {"shards": 16, "budget_s": 300},
 }
-MIN_EVENTS = {"quick": 4000, "thorough": 40000}
+MIN_EVENTS = {"quick": 15000, "thorough": 300000}
 DECIDING = {"databox_op", "history", "copy_independence", "sibling", "to_csv_file", "csv_roundtrip", "dataslate_from", "dataslate_roundtrip"}
 EXHAUSTIVE = {"quick": False, "thorough": False}
 UNNAN_CASES = False   # cases carry strings such as nan_str="nan"; numeric rows are converted by _num below
@@ -1408,6 +1419,61 @@ def _run_repo_tests(c):
                         c.note(f"repo-tests:failed:{type(exc).__name__}")
 
 
+_STRACE_SCRIPT = """
+import sys, numpy as np, irispie as ir
+db = ir.Databox()
+db["x"] = ir.Series(start=ir.qq(2020, 1), values=np.array([[1.0, 2.0], [2.5, float("nan")], [3.0, 4.0]]), description="x, first")
+db["m"] = ir.Series(start=ir.mm(2020, 1), values=np.array([1.0, 2.0]))
+db["s"] = 1.0
+open(sys.argv[2], "w").close()
+db.to_csv_file(sys.argv[1], description_row=True)
+open(sys.argv[3], "w").close()
+"""
+
+
+def _strace_side(c, tmpdir):
+    """side diagnostic (not deciding, never a violation): under strace, the named CSV file is the only file that
+    to_csv_file opens for writing (openat/open/creat/rename/unlink/mkdir between two marker files)"""
+    import re
+    import shutil
+    import subprocess
+    import sys
+    strace = shutil.which("strace")
+    if not strace:
+        c.note("strace:unavailable")
+        return
+    script = os.path.join(tmpdir, "strace_case.py")
+    log = os.path.join(tmpdir, "strace.log")
+    out, begin, end = (os.path.join(tmpdir, n) for n in ("strace_out.csv", "__begin__", "__end__"))
+    with open(script, "w") as f:
+        f.write(_STRACE_SCRIPT)
+    try:
+        p = subprocess.run([strace, "-f", "-e", "trace=openat,open,creat,rename,unlink,mkdir", "-o", log, sys.executable, "-W", "ignore", script, out, begin, end],
+                           stdout=subprocess.PIPE, stderr=subprocess.STDOUT, timeout=120)
+        lines = open(log).read().splitlines()
+    except Exception as exc:
+        c.note(f"strace:failed:{type(exc).__name__}")
+        return
+    inside, touched = False, []
+    for ln in lines:
+        if begin in ln:
+            inside = True
+            continue
+        if end in ln:
+            inside = False
+        if inside and ("= -1" not in ln):
+            m = re.search(r'\((?:AT_FDCWD, )?"([^"]*)"(.*)', ln)
+            if m and (re.search(r"O_WRONLY|O_RDWR|O_CREAT|O_TRUNC|O_APPEND", m.group(2)) or re.search(r"\b(rename|unlink|mkdir|creat)\(", ln)):
+                touched.append(m.group(1))
+    if p.returncode != 0 or not any(begin in ln for ln in lines):
+        c.note("strace:case-did-not-run")
+        return
+    c.event("fs_side", "strace", key=("strace",), nontrivial=False)
+    c.extra["strace_paths_written_by_to_csv_file"] = len(touched)
+    others = [t for t in touched if os.path.abspath(t) != os.path.abspath(out)]
+    c.note("strace:only-the-named-file-written" if touched and not others else f"strace:other-paths-written:{others[:3]}")
+
+
 def replay(c, case):
     install()
     with tempfile.TemporaryDirectory(prefix="c19-") as tmpdir:
@@ -1423,6 +1489,7 @@ def shard(c):
         if c.shard == 0:
             with c.running({"kind": "repo-tests"}):
                 _run_repo_tests(c)
+            _strace_side(c, tmpdir)
         n = c.scale(100000, 1000000)
         for i in range(n):
             if c.out_of_time():
@@ -1439,7 +1506,20 @@ def shard(c):
                 c.sample(_brief(case))
 
 
-def _brief(case):
-    s = rt.jsonable(case)
-    txt = rt.short(s, 1500)
-    return {"kind": case["kind"], "case": txt}
+def _brief(x, depth=0):
+    """a real case, written out, with long lists cut (series keep their first 3 rows, boxes 4 items, histories 4 ops)"""
+    if isinstance(x, dict):
+        out = {}
+        for k, v in x.items():
+            if k == "v" and x.get("t") == "s" and isinstance(v, list) and len(v) > 3:
+                out["v"] = v[:3]
+                out["rows_in_total"] = len(v)
+            elif k in ("items", "ops", "others") and isinstance(v, list) and len(v) > 4:
+                out[k] = [_brief(e, depth + 1) for e in v[:4]]
+                out[k + "_in_total"] = len(v)
+            else:
+                out[k] = _brief(v, depth + 1)
+        return out
+    if isinstance(x, list):
+        return [_brief(e, depth + 1) for e in x]
+    return x
